@@ -217,6 +217,9 @@ async fn join(rxs: Vec<oneshot::Receiver<()>>) -> bool {
         Err(_) => {
             ev!("timeout: some task still pending after 60 simulated seconds");
             probe("ke-timeout");
+            if std::env::var("W3_DEBUG").is_ok() {
+                eprintln!("W3_DEBUG timeout in run {} focus {}", simkit::run_index(), simkit::focus());
+            }
             false
         }
     }
@@ -457,8 +460,8 @@ async fn scen_observer(faults: &Faults) {
     let scfg = draw_server_cfg(false);
     let server = Rc::new(make_server(&scfg));
     let keyset = make_keyset();
-    let protocols = draw_id_list("obs.protocols.n", "obs.protocol", &[P_V4, P_V5, 0x8002, 1, 0xffff, 0x0001], 4);
-    let algorithms = draw_id_list("obs.algorithms.n", "obs.algorithm", &[15, 17, 16, 0, 30, 0xffff, 18], 4);
+    let protocols = draw_id_list("obs.protocols.n", "obs.protocol", &[P_V4, P_V5, P_V5, P_V4, 0x8002, 1, 0xffff], 4);
+    let algorithms = draw_id_list("obs.algorithms.n", "obs.algorithm", &[15, 17, 17, 15, 16, 0, 30, 0xffff], 4);
     let accepted = accepted_ids(&scfg.accepted);
     let want_p = first_mutual_protocol(&protocols, &accepted);
     let want_a = first_supported_algorithm(&algorithms);
@@ -645,7 +648,7 @@ struct ByzPlan {
 /// Build the byzantine response from what the client offered.
 fn byz_response(plan: &ByzPlan, offer_p: &[u16], offer_a: &[u16]) -> (Vec<RawRec>, bool) {
     let mut rng = simkit::Rng::new(plan.cookie_seed);
-    let mut cookie = |rng: &mut simkit::Rng| -> RawRec {
+    let cookie = |rng: &mut simkit::Rng| -> RawRec {
         let n = 64 + (rng.below(80) as usize);
         let mut b = vec![0u8; n];
         for x in b.iter_mut() {
@@ -926,7 +929,7 @@ struct PoolReq {
 
 fn draw_token_record(tokens: &[String]) -> (Option<RawRec>, bool, String) {
     // 0 = a configured token (benign) if there is one
-    match choose("req.token", 6) {
+    match weighted("req.token", &[5, 2, 2, 1, 1, 1]) {
         0 if !tokens.is_empty() => {
             let t = &tokens[choose("req.token.which", tokens.len() as u64) as usize];
             (Some(RawRec::new(raw::T_AUTH, t.as_bytes())), true, "valid-token".into())
@@ -969,7 +972,7 @@ fn draw_pool_request(tokens: &[String], first: bool) -> PoolReq {
         _ => Kind::Soup,
     };
     let mut rng = simkit::sub_rng("req.bytes");
-    let keep = chance("req.keep-alive", 0.5);
+    let keep = chance("req.keep-alive", 0.65);
     let mut recs = vec![];
     let mut well_formed = true;
     let mut has_eom = true;
@@ -1119,7 +1122,7 @@ async fn scen_pool(faults: &Faults) {
     let scfg = draw_server_cfg(true);
     let server = Rc::new(make_server(&scfg));
     let keyset = make_keyset();
-    let slots = choose("pool.slots", 3) as usize;
+    let slots = [1usize, 0, 2, 1][choose("pool.slots", 4) as usize];
     let nconn = 1 + choose("pool.connections", 3) as usize;
     let free = Rc::new(Cell::new(slots));
     ev!("D pool: {nconn} connections, {slots} keep-alive slots, tokens={:?}", scfg.tokens);
@@ -1127,6 +1130,7 @@ async fn scen_pool(faults: &Faults) {
     let mut cli_outs = vec![];
     let mut srv_outs = vec![];
     let mut cut_any = vec![];
+    let mut pipes: Vec<(PipeProbe, PipeProbe)> = vec![];
     for c in 0..nconn {
         let nreq = 1 + weighted("pool.followups", &[3, 3, 2, 1]);
         let mut script = vec![];
@@ -1147,7 +1151,8 @@ async fn scen_pool(faults: &Faults) {
         }
         let (c2s_cfg, s2c_cfg) = faults.pair();
         cut_any.push(c2s_cfg.eof_after.is_some() || c2s_cfg.reset_after.is_some() || c2s_cfg.write_error_after.is_some() || s2c_cfg.eof_after.is_some() || s2c_cfg.reset_after.is_some() || s2c_cfg.write_error_after.is_some());
-        let (c_io, s_io, _c2s, _s2c) = duplex(c2s_cfg, s2c_cfg);
+        let (c_io, s_io, c2s_probe, s2c_probe) = duplex(c2s_cfg, s2c_cfg);
+        pipes.push((c2s_probe, s2c_probe));
         let (stx, srx) = oneshot::channel();
         let (ctx, crx) = oneshot::channel();
         rxs.push(srx);
@@ -1245,7 +1250,15 @@ async fn scen_pool(faults: &Faults) {
             });
         }
     }
-    join(rxs).await;
+    let done = join(rxs).await;
+    if !done && std::env::var("W3_DEBUG").is_ok() {
+        for (i, (a, b)) in pipes.iter().enumerate() {
+            eprintln!(
+                "W3_DEBUG conn{i}: c2s written={} read={} buffered={} closed={} | s2c written={} read={} buffered={} closed={}",
+                a.written_total(), a.read_total(), a.buffered(), a.closed(), b.written_total(), b.read_total(), b.buffered(), b.closed()
+            );
+        }
+    }
     report_crashes("C29");
 
     for c in 0..nconn {
